@@ -61,6 +61,8 @@ Example C11_ex_ep_max :
               49; 56; 52; 52; 54; 55; 52; 52; 48; 55; 51; 55; 48; 57; 53; 53; 49; 54; 49; 53] in
   WfState s /\ fen_write s = str /\ FenSpec.write (abs s) = str /\ fen_read str = Ok s /\ canonical_fen str.
 Proof.
-  cbv zeta. repeat split; try (vm_compute; reflexivity).
-  eexists. split; [|vm_compute; reflexivity]. vm_compute. reflexivity.
+  intros s str.
+  split; [vm_compute; reflexivity|]. split; [vm_compute; reflexivity|].
+  split; [vm_compute; reflexivity|]. split; [vm_compute; reflexivity|].
+  exists s. split; vm_compute; reflexivity.
 Qed.
